@@ -43,6 +43,8 @@ def render_payload(name, rep):
 def render_reply(kind, name, rep):
     p = render_payload(name, rep)
     if kind == "conf":
+        if p == "" and name.upper().startswith("Q"):
+            return name + ","              # a query whose payload is empty still carries its separating comma (e.g. "QT," for no nickname)
         return name + ("," + p if p != "" else "")
     if kind == "errnamed":
         return name + ",Err: injected fault"
@@ -427,7 +429,7 @@ def random_call(rng, alphabet):
     if m == "command":
         return m, [], rng.choice(["SM,100,0,0", "XM,5,1,-1", "SP,1,200", "TP", "CS", "S,5", "SC,4,%d" % R(1, 65535)])
     if m == "query":
-        return m, [], rng.choice(["QX", "V", "Q,1", "QX"])
+        return m, [], rng.choice(["QX", "V", "Q,1", "QX", "QT"])
     if m == "write_nickname":
         return m, [], rng.choice(["Axi", "East Wing", "", "N%d" % R(0, 99)])
     if m == "var_write":
